@@ -19,6 +19,27 @@ def get_value(data: memoryview, start: int, end: int) -> int:
     return int.from_bytes(data[start: start + end], byteorder="big")
 
 
+def _notAJSONNumber(token: str):
+    raise ValueError(f"{token} is not a JSON value")
+
+
+def _finiteFloat(text: str) -> float:
+    value = float(text)
+    if value != value or value in (float("inf"), float("-inf")):
+        raise ValueError(f"{text} is out of range for a JSON number")
+    return value
+
+
+def loadJSON(text: str):
+    """
+    json.loads() for text taken from a PEL or returned by a parser: NaN,
+    Infinity and numbers too large for a float are rejected (ValueError),
+    because they cannot be written back as valid JSON.
+    """
+    return json.loads(text, parse_constant=_notAJSONNumber,
+                      parse_float=_finiteFloat)
+
+
 class ParseUserData:
     """
     The toJSON() function handles parsing the data from either UserData or
